@@ -10,6 +10,7 @@ CONSTANTS
   FreshModelPerCall = TRUE
   DefaultsUntouched = TRUE
   OrderedIteration = TRUE
+  SummaryStateless = TRUE
 INVARIANT CallOK
 INVARIANT AbstractFunctional
 CONSTRAINT Finished
